@@ -1,6 +1,6 @@
 -------------------------------- MODULE RDAC --------------------------------
 (* RDAC identification handler: protocols/hytera/rdac_datagram_protocol.py.               *)
-(* State: step per peer IP (the code's key), completions reported through the callback.   *)
+(* State: step per peer (ip, port) - the key is opaque here -, completions via the callback. *)
 (* Datagram classes: "reset" (exactly one octet), "resp" with prefix kind                 *)
 (*   k in {"FD","10","00","FA"} (fourth octet after 7E 04 00) and `long` (enough octets   *)
 (*   for the fields the step handler indexes), "other" (any other prefix).                *)
